@@ -7,12 +7,23 @@
 
 namespace etl {
 
+namespace detail {
+
+template <typename R1, typename R2>
+struct ratio_divide_impl {
+    static_assert(R2::num != 0, "division by zero");
+
+    using type = ratio<R1::num * R2::den, R1::den * R2::num>;
+};
+
+} // namespace detail
+
 /// \brief The alias template ratio_divide denotes the result of dividing
 /// two exact rational fractions represented by the ratio specializations
 /// R1 and R2.
 /// \ingroup ratio
 template <typename R1, typename R2>
-using ratio_divide = ratio<R1::num * R2::den, R1::den * R2::num>;
+using ratio_divide = typename detail::ratio_divide_impl<R1, R2>::type;
 
 } // namespace etl
 
